@@ -276,7 +276,7 @@ def compute_expanded_multivalue_features(
 
             new_feature_hash[f'MULTIEX-{multivalue_feature}-{unique_value}'] = tmp_vec
 
-    tmp_df = pd.DataFrame(new_feature_hash)
+    tmp_df = pd.DataFrame(new_feature_hash, index=input_dataframe.index)
     input_dataframe = pd.concat([input_dataframe, tmp_df], axis=1)
     del tmp_df
 
@@ -357,7 +357,7 @@ def compute_subfeatures(
                 )
                 new_feature_hash[feature_name_final] = tmp_new_feature
 
-    tmp_df = pd.DataFrame(new_feature_hash)
+    tmp_df = pd.DataFrame(new_feature_hash, index=input_dataframe.index)
     input_dataframe = pd.concat([input_dataframe, tmp_df], axis=1)
 
     del tmp_df
